@@ -93,6 +93,15 @@ def check(run):
         pts = np.array([[core.snap(rng.uniform(-2, 2), 10) for _ in range(3)] for _ in range(3)])
         one_case(run, specs, None, gamma, pts, a, b, sym_flag=flag)
         run.count("symmetric flag of type " + type(flag).__name__)
+    # both parameters given as Python integers (the default alpha is the int 1), odd and even, of either sign; bools
+    for n, (a, b) in enumerate([(1, 1), (0, 3), (1, -1), (2, 1), (True, 1), (-1, 5), (1, 2)] if quick else
+                               [(a_, b_) for a_ in (1, 0, 2, -1, True) for b_ in (1, 3, -1, 5, 2, -3)]):
+        specs = random_basis(rng, 1, 2, lmax=2, exp_hi=10.0)
+        nb = sum(s.size for s in specs)
+        gamma = random_symmetric(rng, nb, psd=(n % 2 == 0))
+        pts = np.array([[core.snap(rng.uniform(-2, 2), 10) for _ in range(3)] for _ in range(2)])
+        one_case(run, specs, None, gamma, pts, a, b)
+        run.count("alpha and beta both Python integers")
     from checks.common import zero_diag_symmetric
     for n, (a, b) in enumerate([(1, 0), (0.5, 0.75), (0, -2.0), (0.3, 1.0)] if quick else params[:8]):
         specs = random_basis(rng, 1, 2, lmax=2, exp_hi=10.0)
